@@ -17,6 +17,7 @@
 // (TOO_LARGE), more than the protocol allows (BAD_LENGTH); 7 buffers below
 // the documented minimum (BAD_PARAM).
 #include "common/tls_session.hpp"
+#include "common/tls_hello.hpp"
 
 using namespace vf;
 using namespace tls;
@@ -499,8 +500,82 @@ static void kind_minsize(Tape &t)
 	stats.eval(fmt("min/%d/%d/%zu/%zu/%zu", server, p.layout, p.buflen, p.ilen, p.olen));
 }
 
+// Probe: renegotiation inside a connection whose first handshake negotiated max_fragment_length 512.  An
+// independent client is free to renegotiate without the extension, or with another value (nothing ties it
+// to its first request); a server that then echoes the value left over from the first handshake sends an
+// unsolicited / mismatching extension, which a conformant client must answer with a fatal alert
+// ("a mismatching echo is refused"; "the server ... echoes exactly that code").
+static void probe_reneg_stale_echo()
+{
+	for (int variant = 0; variant < 2; variant++) {
+		Profile cp, sp;
+		cp.suites = { 0x009C }; sp.suites = { 0x009C };
+		cp.vmin = cp.vmax = sp.vmin = sp.vmax = 0x0303;
+		cp.layout = L_SPLIT; cp.ilen = 512 + 325; cp.olen = 512 + 85;
+		sp.layout = L_SPLIT;
+		BearClient c(cp);
+		BearServer s(sp);
+		VF_CHECK(c.reset() && s.reset(), "probe: reset");
+		Session S(&c, &s);
+		S.run(100000);
+		VF_CHECK(S.established && s.eng->reneg == 2 && server_hello_mfln_code(S) == 1, "probe: first handshake (echo %d)", server_hello_mfln_code(S));
+		wt::RecCodec out, back;
+		VF_CHECK(S.tap.live_codec(0, out) && S.tap.live_codec(1, back), "probe: codec");
+		Bytes fin_c;
+		{
+			Bytes hs;
+			for (auto &p : S.tap.plain[0]) if (p.epoch == 1 && p.type == 22) hs.insert(hs.end(), p.data.begin(), p.data.end());
+			if (hs.size() >= 16 && hs[0] == 20) fin_c.assign(hs.begin() + 4, hs.begin() + 16);
+		}
+		VF_CHECK(fin_c.size() == 12, "probe: client Finished not found");
+		ClientHelloSpec ch;
+		ch.suites = { 0x009C };
+		ch.add_sigalgs({ { 4, 1 } });
+		ch.add_reneg(fin_c);
+		if (variant == 1) ch.add_mfln(2);        // asks for 1024 this time
+		Bytes m = ch.message();
+		Bytes payload = out.encrypt(22, 0x0303, m.data(), m.size());
+		Bytes wire = { 22, 3, 3, (uint8_t)(payload.size() >> 8), (uint8_t)payload.size() };
+		wire.insert(wire.end(), payload.begin(), payload.end());
+		size_t off = 0;
+		Bytes answer;
+		for (int g = 0; g < 2000; g++) {
+			const uint8_t *p;
+			size_t n;
+			bool prog = false;
+			if ((n = s.wire_out_peek(&p)) > 0) { answer.insert(answer.end(), p, p + n); s.wire_out_ack(n); prog = true; }
+			size_t room = s.wire_in_room();
+			if (room && off < wire.size()) { size_t k = std::min(room, wire.size() - off); s.wire_in(wire.data() + off, k); off += k; prog = true; }
+			if (!prog || s.closed()) break;
+		}
+		VF_CHECK(!s.closed() && answer.size() > 100, "probe: the server did not answer the renegotiation ClientHello (error %d, %zu bytes)", s.error(), answer.size());
+		// decrypt the flight and read the ServerHello extensions
+		Bytes clear;
+		for (size_t o = 0; o + 5 <= answer.size(); ) {
+			size_t rl = ((size_t)answer[o + 3] << 8) | answer[o + 4];
+			if (o + 5 + rl > answer.size()) break;
+			Bytes pt;
+			VF_CHECK(back.decrypt(answer[o], 0x0303, answer.data() + o + 5, rl, pt), "probe: server record does not decrypt");
+			clear.push_back(answer[o]); clear.push_back(3); clear.push_back(3); clear.push_back((uint8_t)(pt.size() >> 8)); clear.push_back((uint8_t)pt.size());
+			clear.insert(clear.end(), pt.begin(), pt.end());
+			o += 5 + rl;
+		}
+		ServerFlight f = parse_server_flight(clear);
+		VF_CHECK(f.got_hello, "probe: no ServerHello in the renegotiation answer (%s)", f.parse_error.c_str());
+		int want = -1;      // no request -> no echo; a request for 1024 (above the limit lowered to 512 earlier) may be ignored, never answered with another value
+		if (f.has_mfln && (int)f.mfln != (variant == 1 ? 2 : want)) {
+			std::string what = fmt("renegotiation after a first handshake that negotiated max_fragment_length 512: the second ClientHello %s, the ServerHello carries max_fragment_length code %u "
+				"(the value left in peer_log_max_frag_len by the first handshake; read-ClientHello does not clear it)", variant == 0 ? "has no such extension" : "asks for 1024 (code 2)", f.mfln);
+			if (known("stale-mfln-echo-on-renegotiation")) stats.known_finding("stale-mfln-echo-on-renegotiation", what);
+			else failf("%s", what.c_str());
+		}
+	}
+}
+static bool probes_done = false;
+
 void target_run(Tape &t)
 {
+	if (!probes_done) { probes_done = true; probe_reneg_stale_echo(); }
 	unsigned k = t.u8() % 8;
 	if (k <= 2) kind_session(t);
 	else if (k == 3) kind_openssl(t);
